@@ -22,6 +22,7 @@ RULE = ("meshes: 2D grids, 2D Delaunay, arbitrary triangle lists (isolated trian
 ASSUMPTIONS = ["vertex normals are judged only for unit length where the incident face normals do not cancel",
                "meshes whose masks leave no whole triangle are outside the quantifier"]
 DECIDING_TAPS = ["from_mask", "tri_areas", "boundary_tri_index"]
+REPLAY_PATHS = ['menpo/shape/mesh/test', 'menpo/shape/test']      # suite replay (thorough tier): the repository's own tests under these monitors
 SHARDS = {"quick": 8, "thorough": 16}
 
 
